@@ -85,6 +85,9 @@ type Service struct {
 	// deleteRunningPipelineIfCurrent. Never held across I/O.
 	publishMu sync.Mutex
 
+	// startLocks holds one mutex per pipeline ID, see lockStart.
+	startLocks sync.Map
+
 	// terminalErrors holds the terminal error of a pipeline after it has stopped
 	// and been removed from runningPipelines, so WaitPipeline can still report it
 	// to a caller that races the pipeline's own cleanup goroutine. Written before
@@ -263,6 +266,13 @@ func (s *Service) Start(
 	ctx context.Context,
 	pipelineID string,
 ) error {
+	// One start per pipeline at a time: the status check below and the moment
+	// the pipeline becomes "running" (end of runPipeline) are far apart, and
+	// StatusRecovering admits a user Start while error recovery is about to
+	// restart the pipeline itself.
+	unlock := s.lockStart(pipelineID)
+	defer unlock()
+
 	pl, err := s.pipelines.Get(ctx, pipelineID)
 	if err != nil {
 		return err
@@ -1744,7 +1754,11 @@ func (s *Service) runPipeline(rp *runnablePipeline) error {
 					// restarted. Finalize as a user stop and run the cleanup
 					// tail so the entry is removed.
 					err = nil
-					if updateErr := s.pipelines.UpdateStatus(ctx, rp.pipeline.ID, pipeline.StatusUserStopped, ""); updateErr != nil {
+					superseded, updateErr := s.updateStatusIfCurrent(ctx, rp, pipeline.StatusUserStopped, "")
+					if superseded {
+						return nil
+					}
+					if updateErr != nil {
 						return updateErr
 					}
 				case cerrors.Is(recoveryErr, errGracefulShutdownDuringRecovery):
@@ -1752,7 +1766,11 @@ func (s *Service) runPipeline(rp *runnablePipeline) error {
 					// backoff wait. Finalize as a system stop, not a degraded
 					// failure, and run the cleanup tail so the entry is removed.
 					err = nil
-					if updateErr := s.pipelines.UpdateStatus(ctx, rp.pipeline.ID, pipeline.StatusSystemStopped, ""); updateErr != nil {
+					superseded, updateErr := s.updateStatusIfCurrent(ctx, rp, pipeline.StatusSystemStopped, "")
+					if superseded {
+						return nil
+					}
+					if updateErr != nil {
 						return updateErr
 					}
 				default:
@@ -1762,7 +1780,13 @@ func (s *Service) runPipeline(rp *runnablePipeline) error {
 						Str(log.PipelineIDField, rp.pipeline.ID).
 						Msg("pipeline recovery failed")
 
-					if updateErr := s.pipelines.UpdateStatus(ctx, rp.pipeline.ID, pipeline.StatusDegraded, fmt.Sprintf("%+v", recoveryErr)); updateErr != nil {
+					superseded, updateErr := s.updateStatusIfCurrent(ctx, rp, pipeline.StatusDegraded, fmt.Sprintf("%+v", recoveryErr))
+					if superseded {
+						// the user started the pipeline again while it was marked
+						// recovering: that run owns the pipeline and its status now
+						return nil
+					}
+					if updateErr != nil {
 						return updateErr
 					}
 					// assign so it's the terminal error recorded and notified below.
@@ -1853,6 +1877,30 @@ func (s *Service) runPipeline(rp *runnablePipeline) error {
 	}
 	close(startupDone)
 	return err
+}
+
+// lockStart serializes Start calls for one pipeline ID.
+func (s *Service) lockStart(pipelineID string) (unlock func()) {
+	m, _ := s.startLocks.LoadOrStore(pipelineID, &sync.Mutex{})
+	mu := m.(*sync.Mutex) //nolint:forcetypeassert // only *sync.Mutex is ever stored
+	mu.Lock()
+	return mu.Unlock
+}
+
+// updateStatusIfCurrent stores a status decided by the cleanup goroutine of rp
+// after it had marked the pipeline recovering - unless a newer run has been
+// published for the pipeline in the meantime. StatusRecovering admits a user
+// Start; once that run is live the pipeline's status belongs to it, and a late
+// "degraded" (or "stopped") from the superseded run would leave a live run that
+// can be neither stopped (wrong status) nor started (connectors in use). The
+// start lock makes the check and the write atomic with respect to Start.
+func (s *Service) updateStatusIfCurrent(ctx context.Context, rp *runnablePipeline, status pipeline.Status, errMsg string) (superseded bool, err error) {
+	unlock := s.lockStart(rp.pipeline.ID)
+	defer unlock()
+	if cur, ok := s.runningPipelines.Get(rp.pipeline.ID); ok && cur != rp {
+		return true, nil
+	}
+	return false, s.pipelines.UpdateStatus(ctx, rp.pipeline.ID, status, errMsg)
 }
 
 // deleteRunningPipelineIfCurrent removes id's entry from runningPipelines only
@@ -1983,6 +2031,11 @@ func (s *Service) StartWithBackoff(ctx context.Context, rp *runnablePipeline) er
 	}
 
 	if err := s.Start(ctx, rp.pipeline.ID); err != nil {
+		if cerrors.Is(err, pipeline.ErrPipelineRunning) {
+			// a user Start got in first and the pipeline is running again:
+			// that run owns the pipeline now, there is nothing left to recover
+			return nil
+		}
 		return err
 	}
 
